@@ -625,6 +625,51 @@ def c92(xs, lim):
         else:
             total -= 1
     return [total, acc]
+
+def c93(xs, t):
+    n = 0
+    acc = []
+    while n < len(xs):
+        if xs[n] == t:
+            break
+        acc.append(xs[n])
+        n += 1
+    else:
+        acc.append(-1)
+    return [n, acc]
+
+def c94(d, k):
+    old = None
+    cur = k
+    steps = 0
+    while cur in d and old != cur and steps < 6:
+        old = cur
+        try:
+            cur = d[cur]
+            if cur == 0:
+                raise ValueError("zero")
+        except ValueError:
+            continue
+        else:
+            steps += 1
+    return [cur, steps, old]
+
+def c95(xss, t):
+    for xs in xss:
+        j = 0
+        while j < len(xs):
+            if xs[j] == t:
+                return [xs, j]
+            if xs[j] < 0:
+                raise KeyError("negative")
+            j += 1
+    return None
+
+def c96(n):
+    while True:
+        if n > 3:
+            return n
+        n += 2
 '''
 
 # functions the translator must REFUSE (each exercises one unsupported construct)
@@ -865,6 +910,9 @@ entry("c88", ["s", "i"]); entry("c89", [g_choice(g_listof(g_scalar), g_listof(g_
     "helper_kw": lambda a, kw: "(p2_add (p2_add (p2_str %s) %s) (p2_str %s))" % (
         a[0], kw.get("sep", '(PStr "-")'), kw.get("b", "(PInt 0%Z)"))}})
 entry("c90", ["k", "k", "k"]); entry("c91", ["di", "k"]); entry("c92", ["li", "i"])
+FUEL = {"extra_params": [("fuel", "nat")]}
+entry("c93", ["li", "i"], FUEL, extra_args=["64%nat"]); entry("c94", ["di", "k"], FUEL, extra_args=["64%nat"])
+entry("c95", ["lli", "i"], FUEL, extra_args=["64%nat"]); entry("c96", ["i"], FUEL, extra_args=["64%nat"])
 
 
 # ---------------------------------------------------------------------------- encoding
